@@ -14,6 +14,13 @@ use shmsim::sched::{install_quiet_panic_hook, run_scenario, Outcome, ReaderProg,
 use vworld::serde_json::Value;
 use vworld::{arg_str, arg_u64, json, parse_args, Rng};
 
+/// ShmWriter::new + closing the descriptor it leaks (see vworld::close_fds_pointing_to).
+fn new_writer(path: &Path) -> ShmWriter {
+    let w = ShmWriter::new(path).expect("ShmWriter::new");
+    vworld::close_fds_pointing_to(path, &[]);
+    w
+}
+
 fn workdir() -> PathBuf {
     let d = PathBuf::from(format!("/dev/shm/cbverif.{}", std::process::id()));
     std::fs::create_dir_all(&d).unwrap();
@@ -389,7 +396,7 @@ fn mode_c11sweep(args: &std::collections::HashMap<String, String>) -> Value {
     let mut samples = Vec::new();
     // One valid segment, one writer, generation poked through the file (MAP_SHARED coherent).
     std::fs::write(&path, segment_bytes(1, 2, 1)).unwrap();
-    let mut writer = ShmWriter::new(&path).expect("writer");
+    let mut writer = new_writer(&path);
     let file = std::fs::OpenOptions::new().read(true).write(true).open(&path).unwrap();
     use std::os::unix::fs::FileExt;
     let read_gen = |f: &std::fs::File| -> u16 {
@@ -549,7 +556,7 @@ fn mode_c03long(args: &std::collections::HashMap<String, String>) -> Value {
             let g0: u16 = if round == 0 { 2 } else { (2 * (1 + rng.below(32767))) as u16 };
             let base = 1 + rng.below(1000);
             std::fs::write(&path, segment_bytes(1, g0, base)).unwrap();
-            let mut writer = ShmWriter::new(&path).unwrap();
+            let mut writer = new_writer(&path);
             let cpath = CString::new(path.to_str().unwrap()).unwrap();
             let mut reader = ShmReader::new(&cpath).unwrap();
             let mut p = base;
@@ -618,7 +625,7 @@ fn mode_c03long(args: &std::collections::HashMap<String, String>) -> Value {
     if shard == 0 {
         use clock_bound_shm::{ClockErrorBound, ClockStatus};
         let path = dir.join("sparse");
-        let mut writer = ShmWriter::new(&path).unwrap();
+        let mut writer = new_writer(&path);
         let cpath = CString::new(path.to_str().unwrap()).unwrap();
         let mut rng = Rng::new(seed ^ 0x5BA25E);
         let mut f: [i64; 8] = [100, 5, 1100, 0, 777, 1000, 0, 1];
@@ -673,7 +680,7 @@ fn mode_c18cap(args: &std::collections::HashMap<String, String>) -> Value {
         for (name, updates_per_retry, limit) in [("one-update-per-retry", 1u64, u64::MAX), ("two-updates-per-retry", 2, u64::MAX), ("adversary-gives-up-after-1000-retries", 1, 1000)] {
             let path = dir.join("cap");
             std::fs::write(&path, segment_bytes(1, 2, 1)).unwrap();
-            let writer = Rc::new(RefCell::new(ShmWriter::new(&path).unwrap()));
+            let writer = Rc::new(RefCell::new(new_writer(&path)));
             let cpath = CString::new(path.to_str().unwrap()).unwrap();
             let mut reader = ShmReader::new(&cpath).unwrap();
             let accesses = Rc::new(Cell::new(0u64));
@@ -744,7 +751,7 @@ fn mode_c18cap(args: &std::collections::HashMap<String, String>) -> Value {
             }
             let path = dir.join(format!("mix{}", pi));
             std::fs::write(&path, segment_bytes(1, 2, 1)).unwrap();
-            let writer = Rc::new(RefCell::new(Some(ShmWriter::new(&path).unwrap())));
+            let writer = Rc::new(RefCell::new(Some(new_writer(&path))));
             let cpath = CString::new(path.to_str().unwrap()).unwrap();
             let mut reader = ShmReader::new(&cpath).unwrap();
             let accesses = Rc::new(Cell::new(0u64));
@@ -829,7 +836,7 @@ fn mode_c18cap(args: &std::collections::HashMap<String, String>) -> Value {
         }
         let path = dir.join("gens");
         std::fs::write(&path, segment_bytes(1, *g0, 1)).unwrap();
-        let writer = Rc::new(RefCell::new(ShmWriter::new(&path).unwrap()));
+        let writer = Rc::new(RefCell::new(new_writer(&path)));
         let cpath = CString::new(path.to_str().unwrap()).unwrap();
         let mut reader = ShmReader::new(&cpath).unwrap();
         let _ = reader.snapshot();
@@ -878,7 +885,7 @@ fn mode_c18cap(args: &std::collections::HashMap<String, String>) -> Value {
             let cpath = CString::new(path.to_str().unwrap()).unwrap();
             let mut reader = ShmReader::new(&cpath).unwrap();
             let first = match reader.snapshot() { Ok(c) => decode(c), Err(_) => Decoded::Initial };
-            let writer = Rc::new(RefCell::new(Some(ShmWriter::new(&path).unwrap())));
+            let writer = Rc::new(RefCell::new(Some(new_writer(&path))));
             // One complete update first so that the cached generation differs.
             writer.borrow_mut().as_mut().unwrap().write(&encode(4));
             let accesses = Rc::new(Cell::new(0u64));
@@ -960,7 +967,7 @@ fn mode_c18cap(args: &std::collections::HashMap<String, String>) -> Value {
             std::fs::write(&path, segment_bytes(1, gen0, 3)).unwrap();
             let cpath = CString::new(path.to_str().unwrap()).unwrap();
             {
-                let mut wr = ShmWriter::new(&path).unwrap();
+                let mut wr = new_writer(&path);
                 let cnt = Rc::new(Cell::new(0u64));
                 let c2 = cnt.clone();
                 set_handler(Some(Box::new(move |q: &Point| {
